@@ -86,6 +86,15 @@ def make_content(spec):
     elif mode == "text":
         line = ("line %d of content %d\r\n" % (k, k)).encode()
         out = (line * (n // len(line) + 1))[:n]
+    elif isinstance(mode, str) and mode.startswith("sysmeta:"):
+        # a DataONE system-metadata document that names a checksum -- of some OTHER bytes (e.g. an earlier
+        # revision): what a client stores as metadata is never evidence about the object
+        import hashlib
+        algo = mode.split(":", 1)[1]
+        h = hashlib.new(algo, b"an earlier revision %d" % k).hexdigest()
+        out = ('<?xml version="1.0" encoding="UTF-8"?>\n<ns3:systemMetadata xmlns:ns3="http://ns.dataone.org/service/types/v2.0">'
+               '<serialVersion>%d</serialVersion><identifier>x</identifier><formatId>text/csv</formatId><size>%d</size>'
+               '<checksum algorithm="%s">%s</checksum></ns3:systemMetadata>\n' % (k, n, algo.upper().replace("SHA", "SHA-"), h)).encode()
     return out
 
 
